@@ -9,6 +9,7 @@ import (
 	"fmt"
 	"math/rand"
 	"sort"
+	"time"
 )
 
 type c16View struct {
@@ -137,11 +138,26 @@ func c16One(id int, seed int64, kind string) c16Case {
 		if kind == "unknown-otp" {
 			route = "OtpLogin"
 		}
-		// the known account must not be locked and the attempt must not lock it: unlock resets the counter
-		extra = append(extra, SymStep{Kind: "unlock", U: "u1"})
+		// the known account must not be locked and the attempt must not lock it; keep whatever
+		// attempt counter the prefix left (a stale counter from before the window is the interesting case)
 		if cfg.LockAfter <= 1 && cfg.has("lock") {
 			c.Skip = "LockAfter=1: any failed attempt locks"
 			return c
+		}
+		if cfg.has("lock") {
+			// a few failures, then a pause longer than the window: counter high, not locked, attempt restarts the count
+			n := cfg.LockAfter - 1
+			for i := 0; i < n; i++ {
+				extra = append(extra, SymStep{Kind: "req", Req: &SymReq{Browser: "b2", Method: "POST", Route: "Login",
+					Form: []KV{{pf, Desc{K: "pid", U: "u1"}}, {"password", lit("Wrong-pass1!")}}}})
+			}
+			if u, ok := r1.w.st.users[r1.account("u1").PID]; ok && u.Locked.After(time.Now()) {
+				extra = append([]SymStep{{Kind: "unlock", U: "u1"}}, extra...)
+			}
+			extra = append(extra, SymStep{Kind: "tick", D: int64(cfg.LockWindow) + 30})
+			if rng.Intn(2) == 0 {
+				extra = append(extra, SymStep{Kind: "tick", D: int64(cfg.LockDuration) + 30})
+			}
 		}
 		sa, sb = login(route, "ghost", lit("Wrong-pass1!")), login(route, "u1", lit("Wrong-pass1!"))
 		c.Pre = "unknown-vs-wrong"
@@ -150,6 +166,15 @@ func c16One(id int, seed int64, kind string) c16Case {
 		var e2 []SymStep
 		for _, s := range extra {
 			if s.Kind != "lock" && s.Kind != "unlock" {
+				e2 = append(e2, s)
+			}
+		}
+		extra = e2
+	}
+	if !cfg.has("auth") {
+		var e2 []SymStep
+		for _, s := range extra {
+			if s.Kind != "req" {
 				e2 = append(e2, s)
 			}
 		}
@@ -169,6 +194,12 @@ func c16One(id int, seed int64, kind string) c16Case {
 	defer r2.w.close()
 	for _, s := range script {
 		r2.exec(s)
+	}
+	if kind == "unknown" || kind == "unknown-otp" {
+		if u, ok := r1.w.st.users[r1.account("u1").PID]; ok && u.Locked.After(time.Now()) {
+			c.Skip = "known account still locked"
+			return c
+		}
 	}
 	if kind == "locked" {
 		if u, ok := r1.w.st.users[r1.account("u1").PID]; !ok || !u.Confirmed {
